@@ -116,3 +116,100 @@ PROPS["C08"] = dict(
         _c08("c08_bucket_fine_lo4_good_repeat1", T, 3000, "0..3", "good nodes", "the identity stored in slot 1", FINE),
     ],
 )
+
+STUB_SHA1 = ("InfoHash::sha1 -> collision-free lazy random oracle (equal input => equal output, different input => different "
+             "output; <= 12 queries); the real SHA-1 runs in every native replay")
+STUB_SECRETS = ("rand::random::<u32>() (token secrets) -> arbitrary value assumed different from every earlier secret "
+                "(a collision has probability 2^-32 per pair)")
+STUB_FMT = "alloc::fmt::format -> empty String (error/log text is not the subject)"
+STUB_RS = "std::hash::RandomState::new -> zero keys (its real body reads OS randomness through FFI)"
+
+
+def _c06(name, tiers, tmo, k, fam, who):
+    what = {0: "the issued token from the same IP", 1: "the issued token from a different IP (symbolic, != issuer)",
+            2: "20 arbitrary bytes never issued (assumed different from the store's tokens for that IP)",
+            3: "a token another store (independent secrets) issued to the same IP"}[who]
+    return H(name, "token", tiers, tmo,
+             f"{fam} address symbolic (all bits); store age at issue symbolic in [0, 3 h]; {k} interleaved other event(s), each symbolic in "
+             f"{{none, checkout(other IP), checkin(other IP, issued token), checkout(same IP)}} at symbolic gaps in [0, 1 h] (1 ns); "
+             f"final gap symbolic in [0, 1 h]; final check-in presents {what}; clock start symbolic",
+             f"k = {k} interleaved events; token age range [0, 3 h]; unwind 21",
+             ["TokenStore::new", "TokenStore::checkout", "TokenStore::checkin", "TokenStore::refresh_check", "intervals_passed",
+              "generate_token_from_addr*", "validate_token_from_addr*"])
+
+
+PROPS["C06"] = dict(
+    design_ref="DESIGN.md 4 (C06)",
+    stubs=[CLOCK, STUB_SHA1, STUB_SECRETS],
+    assumptions=["SHA-1 is collision-free on the queried inputs", "fresh secrets differ from earlier ones"],
+    outside=["that handler.rs passes addr.ip() and gates add_item on the result (F7)", "more than 2 interleaved events between issue and check"],
+    harnesses=[
+        _c06("c06_lifetime_k1_v4", Q, 1200, 1, "IPv4", 0),
+        _c06("c06_lifetime_k1_v6", Q, 1200, 1, "IPv6", 0),
+        _c06("c06_other_ip_k0_v4", Q, 1200, 0, "IPv4", 1),
+        _c06("c06_never_issued_k0_v4", Q, 1200, 0, "IPv4", 2),
+        _c06("c06_foreign_store_k0_v4", Q, 1200, 0, "IPv4", 3),
+        H("c06_token_length_gate", "token", Q, 300, "40 symbolic bytes; prefixes of length 0, 19, 20, 21, 40",
+          "lengths enumerated concretely (F15)", ["Token::new"]),
+        _c06("c06_lifetime_k2_v4", T, 3000, 2, "IPv4", 0),
+        _c06("c06_lifetime_k2_v6", T, 3000, 2, "IPv6", 0),
+        _c06("c06_other_ip_k1_v6", T, 3000, 1, "IPv6", 1),
+        _c06("c06_never_issued_k1_v6", T, 3000, 1, "IPv6", 2),
+        _c06("c06_foreign_store_k1_v6", T, 3000, 1, "IPv6", 3),
+    ],
+)
+
+PROPS["C09"] = dict(
+    design_ref="DESIGN.md 4 (C09)",
+    stubs=[],
+    assumptions=["induction over the walk (V(s,s) = {s}; each step adds exactly the nearest unvisited index) is argued, the step and the "
+                 "total length are mechanised"],
+    outside=["ClosestNodes::next on whole tables (did not terminate: DESIGN.md F20/F22)", "the filter(family).take(8) lines in handler.rs (F7)"],
+    harnesses=[
+        H("c09_next_bucket_index_step", "table", Q, 300,
+          "start index s in 0..=160, current index c (= s or any index < 160), probe index i: all symbolic",
+          "one step of the alternating walk (loop-free); no bound", ["next_bucket_index", "index_is_in_bounds"]),
+        H("c09_walk_length", "table", Q, 1200, "start index s in 0..=160 symbolic",
+          "whole walk, 161 iterations unrolled (unwind 163)", ["next_bucket_index"]),
+    ],
+)
+
+PROPS["C19"] = dict(
+    design_ref="DESIGN.md 4 (C19)",
+    stubs=["hook H2: shuffle(thread_rng) is replaced under cfg(kani) by <= 2 arbitrary transpositions (a permutation is all the property uses)"],
+    assumptions=["in-block states: the block's contents are constrained only at the two positions read - inside the block's range and "
+                 "distinct, which any permutation of the block guarantees",
+                 "blocks are disjoint until the wrap, hence no id repeats within one activity before 2^24 draws (argued from the block harnesses)"],
+    outside=["markers other than {0, LEN, max-LEN, max} for block regeneration (concrete executions, F14)",
+             "the shared id of the first bootstrap round (bootstrap.rs, F6)"],
+    harnesses=[
+        H("c19_mid_generate_in_block_at_0", "transaction", Q, 600, "action id < 2^40, block number, the two ids read: symbolic; position 0", "2 draws; unwind 2", ["MIDGenerator::generate", "TransactionID::new", "TransactionID::action_id", "TransactionID::from_bytes"]),
+        H("c19_mid_generate_in_block_at_1000", "transaction", Q, 600, "as above, position 1000", "2 draws", ["MIDGenerator::generate"]),
+        H("c19_mid_generate_in_block_at_last", "transaction", Q, 600, "as above, last two positions of a block", "2 draws", ["MIDGenerator::generate"]),
+        H("c19_aid_generate_in_block_at_0", "transaction", Q, 600, "block number and the two action ids read symbolic; position 0", "2 draws", ["AIDGenerator::generate", "MIDGenerator::new"]),
+        H("c19_aid_generate_in_block_at_last", "transaction", Q, 600, "as above, last two positions", "2 draws", ["AIDGenerator::generate"]),
+        H("c19_mid_generate_across_boundary", "transaction", Q, 900, "action id symbolic; marker in {0 (new generator), LEN, 2^24 (wrap)}; permutation hook symbolic", "one draw across a block boundary; unwind 2050", ["MIDGenerator::generate", "generate_mids"]),
+        H("c19_from_bytes_length_gate", "transaction", Q, 300, "32 symbolic bytes; every prefix length 0..=32", "lengths enumerated", ["TransactionID::from_bytes"]),
+        H("c19_mid_block_first", "transaction", Q, 900, "marker 0 (concrete execution), symbolic probe index", "2048-iteration fill", ["generate_mids"]),
+        H("c19_mid_block_wrap", "transaction", Q, 900, "marker 2^24 (concrete execution), symbolic probe index", "2048-iteration fill", ["generate_mids"]),
+        H("c19_mid_block_last", "transaction", T, 1500, "marker 2^24 - LEN", "2048-iteration fill", ["generate_mids"]),
+        H("c19_aid_block_last", "transaction", T, 1500, "marker 2^40 - LEN", "2048-iteration fill", ["generate_aids"]),
+        H("c19_aid_block_wrap", "transaction", T, 1500, "marker 2^40", "2048-iteration fill", ["generate_aids"]),
+        H("c19_mid_generate_in_block", "transaction", T, 3000, "as in_block_at_*, with the position in the block symbolic too", "2 draws", ["MIDGenerator::generate"]),
+        H("c19_aid_generate_in_block", "transaction", T, 3000, "as aid in_block_at_*, position symbolic", "2 draws", ["AIDGenerator::generate"]),
+    ],
+)
+
+PROPS["C13"] = dict(
+    design_ref="DESIGN.md 4 (C13)",
+    stubs=[STUB_FMT],
+    assumptions=["decoding is driven through serde's in-memory deserializers / a structural stand-in that calls visitors the way "
+                 "torrust-serde-bencode does; the bencode text lexer itself is outside (DESIGN.md F14)"],
+    outside=["the bencode library's text parser and emitter", "lists longer than 2 entries", "arbitrary UTF-8 error text"],
+    harnesses=[
+        H("c13_nodes_v4_lengths", "compact", Q, 600, "53 symbolic bytes; blob lengths 0,1,25,26,27,51,52,53", "lengths enumerated (F15); unwind 80", ["compact::nodes_v4::deserialize", "compact::nodes::deserialize", "decode_socket_addr"]),
+        H("c13_nodes_v6_lengths", "compact", Q, 600, "77 symbolic bytes; blob lengths 0,26,37,38,39,75,76,77", "lengths enumerated", ["compact::nodes_v6::deserialize", "decode_socket_addr"]),
+        H("c13_values_element_lengths", "compact", Q, 600, "two elements of symbolic bytes; element lengths 0,5,6,7,17,18,19", "lists <= 2 elements", ["compact::values::deserialize", "decode_socket_addr"]),
+        H("c13_socket_addr_roundtrip", "compact", Q, 300, "family, 16 address bytes, port: symbolic", "none", ["encode_socket_addr", "decode_socket_addr"]),
+    ],
+)
